@@ -127,8 +127,25 @@ func seed() int64 {
 	return 1
 }
 
+// knownFile is the committed known-findings file; a mutation campaign running from a source
+// snapshot (tools/mutcampaign.py) points at the snapshot's copy.
+func knownFile() string {
+	if f := os.Getenv("VCHECK_KNOWN_FILE"); f != "" {
+		return f
+	}
+	return filepath.Join(root, "known_findings.json")
+}
+
 // build compiles the checks package against /repo's working tree.
 func build(dir string, race bool) (string, error) {
+	// mutation campaigns (tools/mutcampaign.py) build the test binary once per mutant and hand it
+	// to every property's run; the registered commands never set these variables
+	if pre := os.Getenv("VCHECK_BIN"); pre != "" && !race {
+		return pre, nil
+	}
+	if pre := os.Getenv("VCHECK_RACEBIN"); pre != "" && race {
+		return pre, nil
+	}
 	out := filepath.Join(dir, "checks.test")
 	args := []string{"test", "-c", "-tags", "verif", "-vet=off", "-o", out}
 	if race {
@@ -245,7 +262,7 @@ func run(prop, tier string) int {
 	}
 
 	baseEnv := []string{"VCHECK_PROP=" + prop, "VCHECK_TIER=" + tier, "VCHECK_SEED=" + strconv.FormatInt(seed(), 10), "VCHECK_OUT=" + dir,
-		"VCHECK_KNOWN=" + filepath.Join(root, "known_findings.json")}
+		"VCHECK_KNOWN=" + knownFile()}
 
 	// 1. witnesses of listed known findings
 	{
